@@ -18,7 +18,9 @@ import numpy as np
 from glue.core import Data, DataCollection
 from glue.core.exceptions import IncompatibleAttribute
 from glue.core.link_helpers import JoinLink
+from glue.core.subset import ElementSubsetState, MaskSubsetState
 
+from vf.ctx import stable_hash
 from vf.common import VIEW_KINDS, make_view, describe_view, apply_view, same_array
 
 ID = "C11"
@@ -50,6 +52,9 @@ SHAPES = ["1-1", "n-n", "1-n", "n-1"]
 INT_POOL = [-1, 0, 1, 2, 3, 4]
 FLOAT_POOL = [-1.0, 0.0, 0.5, 1.0, 2.0, 3.0, 4.0]
 STR_POOL = ["a", "b", "cc", "dd", "eee"]
+BIG_INT_POOL = list(range(-2, 9))
+BIG_FLOAT_POOL = [-1.0, -0.5, 0.0, 0.5, 1.0, 1.5, 2.0, 2.5, 3.0, 4.0, 5.0]
+BIG_STR_POOL = ["a", "b", "cc", "dd", "eee", "f", "gg", "hhh", "ab", "ba"]
 SAME_DTYPES = ["int64", "int64", "float64", "str", "int32", "float32"]
 PAIRINGS = ["same", "same", "same", "int_vs_float", "int_width", "float_width", "str_width", "neg_zero"]
 
@@ -84,13 +89,17 @@ def setup(ctx):
 
 
 # ---------------------------------------------------------------- generation (descriptors are plain data)
-def gen_column(rng, n, kind, width=None, negzero=None, pool_bias=None):
-    """kind in int64/int32/float64/float32/str -> {"dtype":..., "values":[...]} (flat list of n values)."""
+def gen_column(rng, n, kind, width=None, negzero=None, pool_size=None):
+    """kind in int64/int32/float64/float32/str -> {"dtype":..., "values":[...]} (flat list of n values).
+    pool_size: draw from the first pool_size values of the big pools (large tables, controls duplication)."""
+    ipool, fpool, spool = INT_POOL, FLOAT_POOL, STR_POOL
+    if pool_size is not None:
+        ipool, fpool, spool = BIG_INT_POOL[:pool_size + 1], BIG_FLOAT_POOL[:pool_size + 1], BIG_STR_POOL[:pool_size]
     if kind.startswith("int"):
-        vals = [rng.choice(INT_POOL) for _ in range(n)]
+        vals = [rng.choice(ipool) for _ in range(n)]
         return {"dtype": kind, "values": vals}
     if kind.startswith("float"):
-        vals = [rng.choice(FLOAT_POOL) for _ in range(n)]
+        vals = [rng.choice(fpool) for _ in range(n)]
         if negzero == "neg":
             vals = [(-0.0 if v == 0.0 else v) for v in vals]
             if n and not any(v == 0.0 for v in vals):
@@ -100,7 +109,7 @@ def gen_column(rng, n, kind, width=None, negzero=None, pool_bias=None):
                 vals[rng.randrange(n)] = 0.0
         return {"dtype": kind, "values": vals}
     if kind == "str":
-        vals = [rng.choice(STR_POOL) for _ in range(n)]
+        vals = [rng.choice(spool) for _ in range(n)]
         w = 3 if width is None else max(3, width)
         return {"dtype": "<U%d" % w, "values": vals}
     raise ValueError(kind)
@@ -133,7 +142,7 @@ def pair_class(ca, cb):
     return "other"
 
 
-def gen_edge_columns(rng, na, nb, shape, pairing):
+def gen_edge_columns(rng, na, nb, shape, pairing, pool_size=None):
     """Key columns for an edge between tables with na / nb elements.  Returns (cols_a, cols_b) lists of column
     descriptors (len 1 or k according to the shape)."""
     if shape == "1-1":
@@ -169,21 +178,21 @@ def gen_edge_columns(rng, na, nb, shape, pairing):
     for i in range(kmax):
         if ka == kb:
             if i in odd:
-                cols_a.append(gen_column(rng, na, x, **kwx))
-                cols_b.append(gen_column(rng, nb, y, **kwy))
+                cols_a.append(gen_column(rng, na, x, pool_size=pool_size, **kwx))
+                cols_b.append(gen_column(rng, nb, y, pool_size=pool_size, **kwy))
             else:
                 z = rng.choice(SAME_DTYPES)
-                cols_a.append(gen_column(rng, na, z))
-                cols_b.append(gen_column(rng, nb, z))
+                cols_a.append(gen_column(rng, na, z, pool_size=pool_size))
+                cols_b.append(gen_column(rng, nb, z, pool_size=pool_size))
         elif ka == 1:
             # single column (dtype x) on side a; side b: y on the odd positions, x elsewhere
             if i == 0:
-                cols_a.append(gen_column(rng, na, x, **kwx))
-            cols_b.append(gen_column(rng, nb, y, **kwy) if i in odd else gen_column(rng, nb, x, **kwx))
+                cols_a.append(gen_column(rng, na, x, pool_size=pool_size, **kwx))
+            cols_b.append(gen_column(rng, nb, y, pool_size=pool_size, **kwy) if i in odd else gen_column(rng, nb, x, pool_size=pool_size, **kwx))
         else:
             if i == 0:
-                cols_b.append(gen_column(rng, nb, y, **kwy))
-            cols_a.append(gen_column(rng, na, x, **kwx) if i in odd else gen_column(rng, na, y, **kwy))
+                cols_b.append(gen_column(rng, nb, y, pool_size=pool_size, **kwy))
+            cols_a.append(gen_column(rng, na, x, pool_size=pool_size, **kwx) if i in odd else gen_column(rng, na, y, pool_size=pool_size, **kwy))
     return cols_a, cols_b
 
 
@@ -201,13 +210,14 @@ def edge_class(cols_a, cols_b):
 TOPOLOGIES = ["pair", "pair", "pair", "chain", "chain", "star", "cycle", "two_components"]
 
 
-def gen_graph(rng, tier):
-    topo = rng.choice(TOPOLOGIES)
+def gen_graph(rng, tier, large=False):
+    """large=True: 60-300 rows per table, key tuples heavily duplicated (beyond numpy's small-array paths)."""
+    topo = rng.choice(TOPOLOGIES) if not large else rng.choice(["pair", "pair", "chain"])
     if topo == "pair":
         nt = 2
         edges = [(0, 1)]
     elif topo == "chain":
-        nt = rng.choice([3, 3, 4])
+        nt = rng.choice([3, 3, 4]) if not large else 3
         order = list(range(nt))
         rng.shuffle(order)
         edges = [(order[i], order[i + 1]) for i in range(nt - 1)]
@@ -232,7 +242,9 @@ def gen_graph(rng, tier):
     max_len = 8 if tier == "quick" else 10
     tables = []
     for t in range(nt):
-        if rng.random() < 0.15:
+        if large:
+            shape = [rng.randint(60, 300)]
+        elif rng.random() < 0.15:
             shape = [rng.randint(1, 3), rng.randint(1, 3)]
         else:
             shape = [rng.randint(1, max_len)]
@@ -244,12 +256,12 @@ def gen_graph(rng, tier):
     for ei, (a, b) in enumerate(edges):
         if rng.random() < 0.5:
             a, b = b, a
-        shape = rng.choice(SHAPES)
+        shape = rng.choice(SHAPES) if not large else rng.choice(["n-n", "n-n", "n-n", "1-1", "1-n", "n-1"])
         pairing = rng.choice(PAIRINGS)
         if topo == "cycle":
             pairing = "same"
         na, nb = len(tables[a]["v"]), len(tables[b]["v"])
-        cols_a, cols_b = gen_edge_columns(rng, na, nb, shape, pairing)
+        cols_a, cols_b = gen_edge_columns(rng, na, nb, shape, pairing, pool_size=rng.choice([3, 5, 9]) if large else None)
         names_a, names_b = [], []
         for i, c in enumerate(cols_a):
             name = "k%d_%d" % (ei, i)
@@ -266,12 +278,17 @@ def gen_graph(rng, tier):
                        "dtype_pair": edge_class(cols_a, cols_b), "via": via,
                        "caller": rng.choice(["a", "b"]), "ids": rng.choice(["names", "cids"]),
                        "single_as_scalar": rng.random() < 0.5})
-    return {"topology": topo, "tables": tables, "edges": edescs, "in_collection": rng.random() < 0.5 or
+    return {"topology": topo, "tables": tables, "edges": edescs, "large": large, "in_collection": rng.random() < 0.5 or
             any(e["via"] == "JoinLink" for e in edescs)}
 
 
-def gen_selection(rng, table):
+def gen_selection(rng, table, large=False):
     n = len(table["v"])
+    if large:
+        # v is a permutation of 0..n-1: "v > n-k-0.5" selects exactly k rows
+        k = rng.choice([1, n, rng.randint(20, min(100, n)), rng.randint(20, min(100, n)), rng.randint(20, min(100, n)),
+                        rng.randint(2, 19), rng.randint(min(100, n), n)])
+        return {"op": "gt", "thr": n - k - 0.5}
     r = rng.random()
     if r < 0.4:
         return {"op": "gt", "thr": rng.randrange(-1, n) + 0.5}
@@ -390,6 +407,7 @@ def propagate(desc, path, src_mask):
 class Built:
     def __init__(self, desc):
         self.desc = desc
+        self.desc_hash = stable_hash(desc, 16)
         self.datas = []
         for t, tab in enumerate(desc["tables"]):
             d = Data(label="t%d" % t)
@@ -398,6 +416,9 @@ class Built:
             for name, col in tab["cols"].items():
                 d.add_component(column_array(col, shape), name)
             self.datas.append(d)
+            nel = int(np.prod(shape))
+            d.add_component(np.array(["x", "yy"] * ((nel + 1) // 2))[:nel].reshape(shape), "sv")   # only used by fault queries
+        self.faults_so_far = 0
         self.foreign = Data(label="foreign", z=np.array([1.0, 2.0, 3.0]))
         self.dc = DataCollection(list(self.datas) + [self.foreign]) if desc["in_collection"] else None
         self.joinlinks = {}
@@ -427,6 +448,15 @@ class Built:
         if src == "foreign":
             return self.foreign.id["z"] > 1.5
         d = self.datas[src]
+        if sel["op"] == "fault":
+            n = d.size
+            if sel["fault"] == "str_gt_number":
+                return d.id["sv"] > 3
+            if sel["fault"] == "element_out_of_range":
+                return ElementSubsetState(indices=[n + 5, n + 9], data=d)
+            if sel["fault"] == "mask_wrong_shape":
+                return MaskSubsetState(np.ones(n + 2, dtype=bool), d.pixel_component_ids)
+            raise ValueError(sel)
         v = d.id["v"]
         op = sel["op"]
         if op == "gt":
@@ -514,19 +544,58 @@ def run_graph(ctx, desc, rng):
         queries = []
         sources = list(range(nt))
         rng.shuffle(sources)
+        large = desc.get("large", False)
         for s in sources[: (2 if nt <= 3 else 3)]:
-            sel = gen_selection(rng, desc["tables"][s])
-            for t in range(nt):
-                if t != s:
-                    queries.append((s, sel, t, None))
-                    if rng.random() < 0.5:
-                        queries.append((s, sel, t, rng.choice(VIEW_KINDS[1:])))
+            for _rep in range(2 if large else 1):
+                sel = gen_selection(rng, desc["tables"][s], large)
+                for t in range(nt):
+                    if t != s:
+                        queries.append((s, sel, t, None))
+                        if rng.random() < (0.25 if large else 0.5):
+                            queries.append((s, sel, t, rng.choice(VIEW_KINDS[1:])))
+        # faults: selections whose evaluation on their own table raises something other than IncompatibleAttribute,
+        # asked through the joins and interleaved with the valid ones
+        if rng.random() < 0.5:
+            for _f in range(rng.randint(1, 3)):
+                s, t = rng.sample(range(nt), 2)
+                queries.append((s, {"op": "fault", "fault": rng.choice(FAULTS)}, t, None if rng.random() < 0.8 else
+                                rng.choice(VIEW_KINDS[1:])))
         for t in range(nt):
             if rng.random() < 0.6:
                 queries.append(("foreign", None, t, None if rng.random() < 0.7 else rng.choice(VIEW_KINDS[1:])))
         rng.shuffle(queries)
         for (s, sel, t, vkind) in queries:
             one_query(ctx, b, desc, adj, cyclic, phase, s, sel, t, vkind, rng)
+
+
+FAULTS = ["str_gt_number", "element_out_of_range", "element_out_of_range", "mask_wrong_shape"]
+
+
+def fault_query(ctx, b, desc, base_sig, fp, detail, s, sel, t, view, paths):
+    nt = len(desc["tables"])
+    state = b.state(s, sel)
+    own = observe(b.datas[s], state, None, nt)      # join-free evaluation on the selection's own table
+    got = observe(b.datas[t], state, view, nt)
+    b.faults_so_far += 1
+    ctx.count("fault_queries")
+    ctx.count("fault:" + sel["fault"])
+    if not paths:
+        ctx.count("fault_without_join_path:" + got[0])
+        return
+    if len(paths[0]) >= 2:
+        ctx.count("fault_through_chain")
+    if sel["fault"] == "mask_wrong_shape" or own[0] != "exception":
+        # not a fault of the table's own evaluation (glue hands a mis-shaped mask through): outcome only tallied
+        ctx.count("fault_outcome_tallied:%s" % (got[1] if got[0] == "exception" else got[0]))
+        return
+    ctx.evaluation(fp, nontrivial=True)
+    if got == own:
+        ctx.count("fault_surfaced_same_exception")
+        ctx.count("fault_surfaced:" + own[1])
+    else:
+        ctx.violation(dict(base_sig, kind="fault_outcome_differs_from_join_free_evaluation", fault=sel["fault"],
+                           expected_exception=own[1], got=got[0], exception=got[1] if got[0] == "exception" else None),
+                      detail(observed=got, join_free=own))
 
 
 def _neg_int_key(desc, e):
@@ -557,13 +626,18 @@ def one_query(ctx, b, desc, adj, cyclic, phase, s, sel, t, vkind, rng):
     nt = len(desc["tables"])
     T = b.datas[t]
     tshape = tuple(desc["tables"][t]["shape"])
-    state = b.state(s, sel)
     view = make_view(rng, tshape, vkind) if vkind else None
     vdesc = describe_view(view)
-    base_sig = {"topology": desc["topology"], "phase": phase, "view_kind": vkind or "none", "in_collection": desc["in_collection"]}
+    large = desc.get("large", False)
+    base_sig = {"topology": desc["topology"], "phase": phase, "view_kind": vkind or "none", "in_collection": desc["in_collection"],
+                "after_fault": b.faults_so_far > 0, "large_tables": large}
     paths = [] if s == "foreign" else simple_paths(adj, s, t)
-    fp = [desc, phase, s, sel, t, vdesc]
+    fp = [b.desc_hash, phase, s, sel, t, vdesc]
     detail = lambda **kw: dict({"graph": desc, "phase": phase, "source": s, "selection": sel, "target": t, "view": vdesc}, **kw)
+    if sel is not None and sel["op"] == "fault":
+        fault_query(ctx, b, desc, base_sig, fp, detail, s, sel, t, view, paths)
+        return
+    state = b.state(s, sel)
 
     if not paths:
         # nothing can evaluate the selection for this table: IncompatibleAttribute, on cycles too
@@ -601,6 +675,18 @@ def one_query(ctx, b, desc, adj, cyclic, phase, s, sel, t, vkind, rng):
     hshape = edge_shape_from(desc, hop_edge, t)
     hclass = desc["edges"][hop_edge]["dtype_pair"]
     ctx.count("eval_mask")
+    if b.faults_so_far:
+        ctx.count("eval_mask_after_fault")
+        if len(first) >= 2:
+            ctx.count("eval_mask_after_fault_through_chain")
+    if large:
+        nsel = int(src_mask.sum())
+        ctx.count("eval_large")
+        ctx.count("eval_large_shape:" + hshape)
+        ctx.count("eval_large_selected:" + ("one" if nsel == 1 else "all" if nsel == len(src_mask) else
+                                            "20_or_more" if nsel >= 20 else "few"))
+        if hshape == "n-n" and nsel >= 25:
+            ctx.count("eval_large_nn_many_selected_duplicated_keys")
     ctx.count("eval_hops:%d" % min(len(first), 3))
     if len(paths) == 1:
         ctx.count("eval_shape:" + hshape)
@@ -675,7 +761,7 @@ def one_query(ctx, b, desc, adj, cyclic, phase, s, sel, t, vkind, rng):
 
 # ---------------------------------------------------------------- driver interface
 N_BLOCKS = {"quick": 320, "thorough": 16000}
-PER_BLOCK = 12
+PER_BLOCK = 9        # small graphs per block, plus one graph with large tables
 
 
 def cases(tier, seed):
@@ -689,6 +775,9 @@ def run_case(ctx, case):
     for _ in range(PER_BLOCK):
         desc = gen_graph(ctx.rng, ctx.tier)
         run_graph(ctx, desc, ctx.rng)
+    desc = gen_graph(ctx.rng, ctx.tier, large=True)
+    run_graph(ctx, desc, ctx.rng)
+    ctx.count("graphs_with_large_tables")
 
 
 def floors(counters, tier):
@@ -702,7 +791,10 @@ def floors(counters, tier):
     for k, n in [("eval_through_chain", 1500), ("eval_expected_incompatible_on_cyclic_graph", 150),
                  ("eval_expected_incompatible", 2000), ("eval_multiple_paths_any_accepted", 500),
                  ("eval_after_joinlink_removed", 500), ("eval_selection:empty", 800), ("eval_selection:partial", 2000),
-                 ("joinlink_removals", 40)]:
+                 ("joinlink_removals", 40), ("fault_surfaced_same_exception", 100), ("fault_through_chain", 40),
+                 ("eval_mask_after_fault", 1500), ("eval_mask_after_fault_through_chain", 300),
+                 ("eval_large", 600), ("eval_large_shape:n-n", 250), ("eval_large_nn_many_selected_duplicated_keys", 100),
+                 ("eval_large_selected:one", 30), ("eval_large_selected:all", 30)]:
         if counters.get(k, 0) < n:
             out.append("fewer than %d %s" % (n, k))
     for vk in VIEW_KINDS[1:]:
